@@ -85,7 +85,29 @@ UNDEFINED = ["u1", "u2", "u3", "u4"]
 BINOPS = [ast.Add, ast.Sub, ast.Mult, ast.Div, ast.FloorDiv, ast.Mod, ast.Pow, ast.LShift, ast.RShift, ast.BitOr, ast.BitXor, ast.BitAnd, ast.MatMult]
 UNOPS = [ast.Not, ast.USub, ast.UAdd, ast.Invert]
 CMPOPS = [ast.Eq, ast.NotEq, ast.Lt, ast.LtE, ast.Gt, ast.GtE, ast.Is, ast.IsNot, ast.In, ast.NotIn]
-CONSTS: list[Any] = [0, 1, 2, 10, 255, 10**20, 0.5, 1.0, 1e10, 1j, 2.5j, "", "a", "ab", "a b", "x'y", 'q"r', "é", "\\n", "l\nb", b"", b"a", b"\x00\xff", ..., True, False, None]
+CONSTS: list[Any] = [0, 1, 2, 10, 255, 10**20, 0.5, 1.0, 1e10, 1j, 2.5j, "", "a", "ab", "a b", "x'y", 'q"r', "é", "\\n", "l\nb", "a:1", "10:30", "host:8080", "x  y", "NameExpr(k)", "k)", ":7", "Tab\there", "UPPER lower", b"", b"a", b"h:80", b"\x00\xff", ..., True, False, None]
+
+
+def mut_text(rng: Any, v: str) -> str:
+    """a different text: one small edit of any of the kinds a normalising comparison might swallow (a digit, a `:digits` run as in
+    mypy's line tags, blanks, case, quotes, brackets, an escape), anywhere in the text"""
+    edits = []
+    if v:
+        i = rng.randrange(len(v))
+        edits += [v[:i] + v[i + 1 :], v[:i] + rng.choice("a :1)('\\\"\n\tZ") + v[i:]]
+        digs = [k for k, c in enumerate(v) if c.isdigit()]
+        if digs:
+            k = rng.choice(digs)
+            edits += [v[:k] + str((int(v[k]) + 1) % 10) + v[k + 1 :]] * 3
+        if v.lower() != v.upper():
+            ks = [k for k, c in enumerate(v) if c.swapcase() != c]
+            k = rng.choice(ks)
+            edits.append(v[:k] + v[k].swapcase() + v[k + 1 :])
+        if " " in v:
+            edits.append(v.replace(" ", "  ", 1))
+    edits += [v + c for c in ("a", " ", "'", "\\", ":1", ":", ")", "1")]
+    edits = [e for e in edits if e != v]
+    return rng.choice(edits)
 
 SECTIONS = {
     # name: (header lines, indent, names, allow await)
@@ -483,9 +505,9 @@ def mutate(tree: ast.expr, rng: Any, names: list[str]) -> tuple[str, ast.expr] |
             elif isinstance(v, (int, float, complex)):
                 n.value = v + 1
             elif isinstance(v, str):
-                n.value = v + rng.choice(["a", " ", "'", "\\"]) if rng.random() < 0.7 or not v else v[:-1]
+                n.value = mut_text(rng, v)
             elif isinstance(v, bytes):
-                n.value = v + b"a"
+                n.value = mut_text(rng, v.decode("latin-1")).encode("latin-1", "replace")
         elif k == "literal-type":
             v = n.value
             if isinstance(v, bool) or v is None or v is ...:
